@@ -796,7 +796,9 @@ class KernelCpu:
                     return self.ffi_interface.cast(
                         dtype2ctype(value._itemtype._dtype) + "*",
                         self.ffi_interface.from_buffer(
-                            value._buffer.buffer[
+                            # a view in both CPU buffer kinds (slicing a
+                            # bytearray itself would copy the bytes)
+                            memoryview(value._buffer.buffer)[
                                 value._offset + value._data_offset :
                             ]  # fails for pyopencl, cuda
                         ),
